@@ -95,8 +95,12 @@ def confirm_violation(prop, cell, result, fails, scratch):
            "how_to_replay": f"cd {vk.VERIF} && ./bin/check --replay {path}"}
     out = {"confirmed": False, "path": str(path), "mode": "", "why": ""}
     test_src, why = (None, "")
-    if not os.environ.get("VERIF_NO_PLAYBACK"):
+    # class K: Kani's concrete playback on the sampling-loop harnesses needs tens of GB and minutes (measured);
+    # the values are only extracted there on request
+    if not os.environ.get("VERIF_NO_PLAYBACK") and (cell.cls == "N" or os.environ.get("VERIF_PLAYBACK_K")):
         test_src, why = _extract_playback(scratch, cell)
+    elif cell.cls != "N":
+        why = "counterexample values not extracted for class K (set VERIF_PLAYBACK_K=1)"
     rec["concrete_playback_test"] = test_src
     if cell.cls == "N" and test_src:
         runs = [_native_replay(scratch, cell, test_src, "dev"), _native_replay(scratch, cell, test_src, "release")]
@@ -112,8 +116,8 @@ def confirm_violation(prop, cell, result, fails, scratch):
     elif cell.cls == "N":
         out.update(confirmed=True, mode=f"solver verdict only ({why})")
     else:
-        out.update(confirmed=True, mode="class K: decided by CBMC on the real code with observing stubs; "
-                                        "counterexample values recorded" + ("" if test_src else f" ({why})"))
+        out.update(confirmed=True, mode="class K: decided by CBMC on the real code with observing/environment stubs; "
+                                        "no native run" + ("; counterexample values recorded" if test_src else f" ({why})"))
     rec["confirmation"] = out
     path.write_text(json.dumps(rec, indent=1) + "\n")
     return out
